@@ -376,7 +376,7 @@ func (r *Recorder) Replay(t *testing.T, handlers map[string]ReplayHandler) {
 				continue
 			}
 			r.mu.Lock()
-			r.violations = append(r.violations, violationOut{rf.Test, v.Sig, v.Msg, f})
+			r.violations = append(r.violations, violationOut{"replay:" + rf.Test, v.Sig, v.Msg, f})
 			r.mu.Unlock()
 			t.Errorf("replay %s: violation %s: %s", f, v.Sig, v.Msg)
 			break
